@@ -554,6 +554,10 @@ def gen_float(rng, tier):
     for s, e in [(4899, -7), (1, 30), (1323, -7), (1, -1), (3, 0), (123, -2), (5, -324), (25, -325), (17976931348623157, 292), (17976931348623159, 292)]:
         yield Case("f.to_f64", [dec(10), "HalfAway", hx(s), dec(e)])
         yield Case("f.to_f32", [dec(10), "HalfEven", hx(s), dec(e)])
+        if base_code_ok(10, s, e):
+            yield Case("f.to_f64.code", [dec(10), "HalfAway", hx(s), dec(e)])
+            yield Case("f.to_f32.code", [dec(10), "HalfEven", hx(s), dec(e)])
+    yield from gen_float_base(rng, tier)
     # to_int family and exact-or-refused conversions
     for _ in range(300 if quick else 60000):
         B = rng.choice([2, 10, 10, 16, 3])
@@ -600,6 +604,94 @@ def gen_float(rng, tier):
     for which in ["to_f32", "to_f64", "repr.to_f64", "to_int", "try.ibig", "try.ubig", "try.u8", "try.i64", "to.rbig", "tryto_f32", "tryto_f64"]:
         for sg in "+-":
             yield Case("f.inf", [which, sg])
+
+
+def small_exp_threshold():
+    """THRESHOLD_SMALL_EXP of Context::convert_base, read from the source (the Lean side uses the regenerated
+    Dashu.Gen.float_THRESHOLD_SMALL_EXP)"""
+    try:
+        m = re.search(r"const THRESHOLD_SMALL_EXP: isize = (\d+);", open("/repo/float/src/convert.rs").read())
+        return int(m.group(1)) if m else 38
+    except OSError:
+        return 38
+
+
+def base_code_ok(B, s, e):
+    """True when `convert_base::<B, 2>` of FBig::from_parts(s, e) stays on a mirrored branch (B a power of two, or
+    |normalised exponent| <= THRESHOLD_SMALL_EXP); otherwise it goes through ln/exp and the `.code` op is not defined"""
+    if B & (B - 1) == 0 or s == 0:
+        return True
+    while s % B == 0:
+        s //= B
+        e += 1
+    return abs(e) <= small_exp_threshold()
+
+
+def gen_float_base(rng, tier):
+    """FBig::<R,B>::to_f32/to_f64, Repr::<B>::to_f32 for B in {10, 3, 16}: every branch of Context::convert_base that is
+    mirrored (`.code` ops: real code vs mirrored algorithm, digit for digit, including the debug assertion of
+    into_fNN_internal after a (p+1)-bit quotient of repr_div) beside the single-rounding specification"""
+    quick = tier == "quick"
+    modes = ["Zero", "Away", "Up", "Down", "HalfEven", "HalfAway"]
+    T = small_exp_threshold()
+
+    def emit(B, s, e):
+        if s == 0 or not base_code_ok(B, s, e):
+            return
+        s = signed(rng, s)
+        md = rng.choice(modes)
+        yield Case("f.to_f64.code", [dec(B), "HalfAway", hx(s), dec(e)])
+        yield Case("f.to_f64", [dec(B), "HalfAway", hx(s), dec(e)])
+        yield Case("f.to_f32.code", [dec(B), md, hx(s), dec(e)])
+        yield Case("f.to_f32", [dec(B), md, hx(s), dec(e)])
+        if rng.random() < 0.4:
+            yield Case("fr.to_f32.code", [dec(B), hx(s), dec(e)])
+            yield Case("fr.to_f32", [dec(B), hx(s), dec(e)])
+
+    for B in (10, 3, 16):
+        # the odd cofactor of the denominator B^k after Repr::<2>::new strips the factors of two
+        odd = {10: 5, 3: 3, 16: 1}[B]
+        # (i) every exponent of the small-exponent window (both ends +-1: the ln/exp branch is filtered out), short and
+        #     long significands: exp >= 0 multiplies; exp < 0 divides by repr_div (q = 0 / short q / long q) or, for a
+        #     dividend longer than precision + divisor digits, by the long-dividend path
+        for e in range(-T - 1, T + 2):
+            if quick and rng.random() < 0.5:
+                continue
+            for nd in ([1, 3, 8, 17, 40] if quick else [1, 2, 3, 5, 8, 12, 16, 17, 20, 30, 40, 60]):
+                sg = rng.randrange(B ** (nd - 1), B ** nd) if nd > 1 else rng.randrange(1, B)
+                if sg % B == 0:
+                    sg += 1
+                yield from emit(B, sg, e)
+        # (ii) exactly representable quotients and exact ties: s = m * odd^k, exponent -k  =>  value = m / 2^k (B = 10),
+        #      m / 1 (B = 3: only k = 0) — m with p-1, p, p+1 (tie), p+2 bits, odd; the first `r.is_zero()` exit of repr_div
+        for p in (24, 53):
+            for L in (1, 2, p - 1, p, p + 1, p + 2, p + 3, 2 * p + 1):
+                for k in ([0, 1, 7, 20, T] if quick else [0, 1, 2, 5, 7, 13, 20, 27, 30, T - 1, T]):
+                    for m in [(1 << L) - 1, (1 << (L - 1)) | 1, rng.getrandbits(L) | (1 << (L - 1)) | 1]:
+                        if B == 16:
+                            yield from emit(B, m, -k)
+                        elif m % odd != 0:
+                            yield from emit(B, m * odd ** k, -k)
+                            # one unit beside the exact / tie value (remainder-only information)
+                            yield from emit(B, m * odd ** k + rng.choice([1, -1, 2]), -k)
+        # (iii) q = 0 in repr_div (|significand| below the stripped denominator) and the boundary num.digits = p + den.digits
+        #       (+-1 bit) between repr_div and the long-dividend path
+        for k in ([3, 11, 25, T] if quick else [1, 2, 3, 7, 11, 19, 25, 31, T - 1, T]):
+            if B == 16:
+                continue
+            den = odd ** k
+            db = den.bit_length()
+            for p in (24, 53):
+                for nb in (1, max(db - 1, 1), db, db + 1, p + db - 1, p + db, p + db + 1, p + db + 2):
+                    for sg in [(1 << nb) - 1, (1 << (nb - 1)) | 1, rng.getrandbits(nb) | (1 << (nb - 1)) | 1]:
+                        if sg % B == 0:
+                            sg += 1
+                        yield from emit(B, sg, -k)
+        # (iv) the f32 / f64 overflow edge and (f32, base 10/3) the lowest normal binades reachable inside the window
+        for sg, e in [(34028234, 31), (34028235, 31), (34028236, 31), (340282346638528859811704183484516925440, 0),
+                      (340282356779733661637539395458142568448, 0), (11754944, -45), (1, -T), (9, -T), (1, T), (17976931348623157, T - 16)]:
+            if sg % B != 0:
+                yield from emit(B, sg, e)
 
 
 def ratio_is_fixed():
